@@ -45,7 +45,7 @@ def py_inverse(F, A):
 def gen_matrix(rng, F, kmax):
     k = rng.choice([0, 1, 1, 2, 2, 3, 3, 4, 5, 6, 8, 11, 16]) if rng.chance(2, 3) else rng.rng(0, kmax)
     q = F.q
-    kind = rng.below(8)
+    kind = rng.below(11)
     A = [[rng.below(q) for _ in range(k)] for _ in range(k)]
     if kind == 0 and k:                                   # permutation matrix (zero diagonal likely: full pivot search, column unscrambling)
         perm = list(range(k)); rng.shuffle(perm)
@@ -71,7 +71,50 @@ def gen_matrix(rng, F, kmax):
     elif kind == 5 and k:                                 # zero diagonal
         for i in range(k):
             A[i][i] = 0
+    elif kind in (6, 7, 8) and k:
+        # entries in {0, 1}: the whole elimination then stays in {0, 1}, so rows that coincide with a 0/1 pattern kept in scratch storage
+        # (the unit-row shortcut compares the pivot row with such a vector) occur with probability about 2^-k instead of 256^-k
+        if k > 8 and rng.chance(3, 4):
+            k = rng.rng(2, 8)
+        A = [[rng.below(2) for _ in range(k)] for _ in range(k)]
+        if kind >= 7:
+            for i in range(k):
+                A[i][i] = 1
+        if kind == 8:                                     # unit rows mixed with 0/1 rows: the shape of a decoding matrix
+            for i in range(k):
+                if rng.chance(1, 2):
+                    A[i] = [1 if j == i else 0 for j in range(k)]
     return k, A
+
+
+def directed_sessions(c, impls):
+    """Search for a failing SESSION after the inversion routines disagreed with the model on some matrix: every k-subset of the
+    n symbols of a few (k, n) with many repair symbols, for the codecs whose inversion routine is affected (the decoding matrices
+    of a session are unit rows + generator rows; which of them meet the defect is not known in advance)."""
+    import itertools, ldpc
+    reqs = []
+    for impl in sorted(impls):
+        codec, m = {1: (sessions.RS28, 0), 2: (sessions.RS2M, 8), 4: (sessions.RS2M, 4)}[impl]
+        for (k, n) in ([(2, 15), (3, 15), (4, 15), (5, 12)] if impl == 4 else [(2, 40), (3, 40), (4, 22), (5, 14)]):
+            subs = list(itertools.combinations(range(n), k))
+            if len(subs) > 10000:
+                subs = c.rng.sample(subs, 10000)
+            for S in subs:
+                reqs.append(sessions.Req(codec, k, n - k, 3, m, 0, c.rng.below(2), 0, 1, 2, list(S), pseed=c.rng.below(10 ** 9)))
+    lines = [q.line() for q in reqs]
+    ans, crashes = ldpc.run_dec(c.snap, lines)
+    found = 0
+    for q, ln, al in zip(reqs, lines, ans):
+        a = ldpc.Ans(al)
+        if a.crash:
+            continue
+        for pid, cls, msg in sessions.oracles(q, a):
+            if pid in ("C01", "C02"):
+                found += 1
+                if found <= 3:
+                    c.violation("%s  [%s]" % (msg, q.desc()), cls, {"stream": "dec", "request": ln, "c_answer": al[:1500], "property": pid, "found_by": "directed search after the inversion correspondence broke"})
+    c.cov["directed_sessions"] = len(reqs)
+    return found
 
 
 def gj_correspondence(c):
@@ -80,7 +123,7 @@ def gj_correspondence(c):
     rng = c.rng
     F8, F4 = GF(8), GF(4)
     reqs, meta = [], []
-    for _ in range(400 if c.tier == "quick" else 5000):
+    for _ in range(900 if c.tier == "quick" else 9000):
         impl = rng.choice([1, 2, 4])
         F = F4 if impl == 4 else F8
         k, A = gen_matrix(rng, F, 24 if c.tier == "quick" else 60)
@@ -96,6 +139,7 @@ def gj_correspondence(c):
     except vlib.BuildError as e:
         c.proof_failed.append({"model_build": str(e)[-1500:]}); ml = []
     n_ok = 0
+    bad_impls = set()
     for i, (impl, k, A, hx) in enumerate(meta):
         a = ans[i]
         if a.startswith(("CRASH", "SKIPPED")):
@@ -108,13 +152,17 @@ def gj_correspondence(c):
         if (code == "1") != (want is None) or (want is not None and got != "".join("%02x" % x for row in want for x in row)):
             c.violation("impl %d k=%d: the C returned error=%s %s, the matrix is %s" % (impl, k, code, got[:60], "singular" if want is None else "invertible with another inverse"),
                         "gj-wrong", {"stream": "gj", "request": reqs[i][:4000], "c_answer": a[:4000]})
+            bad_impls.add(impl)
             continue
         mo = ml[i].split() if i < len(ml) else []
         if len(mo) < 2 or mo[1] != code or (code == "0" and (mo[2] if len(mo) > 2 else "") != got):
             c.proof_failed.append({"correspondence": "gj", "request": reqs[i][:2000], "c": a[:2000], "model": (ml[i] if i < len(ml) else "")[:2000]})
+            bad_impls.add(impl)
             break
         n_ok += 1
     c.cov["gj_matrices_agreeing"] = n_ok
+    if bad_impls:
+        directed_sessions(c, bad_impls)
     return len(reqs), n_ok
 
 
